@@ -52,6 +52,25 @@ Definition spec_volt (amp off : Q) (res : Z) (vs : list Q) (obs : outcome (list 
                     && monotone_pairs (combine vs cs)
        end.
 
+(* tolerance stream (inputs that are NOT exactly representable steps: decimal amplitudes / voltages).  The float
+   computation may differ from the exact one by rounding of the three operations; declared tolerance on the scaled
+   voltage: code_tol.  A code is accepted if it is within 1/2 + code_tol of the exact scaled voltage (so it may be the
+   other neighbour only when the exact value is within code_tol of a half-way point); range, monotonicity and
+   rejection of out-of-range input are still demanded exactly. *)
+Definition code_tol : Q := 1 # (2 ^ 30).
+Definition code_tol_ok (amp off : Q) (res : Z) (v : Q) (c : Z) : bool :=
+  (0 <=? c) && (c <=? 2 ^ res - 1)
+  && Qle_bool (Qabs (inject_Z c - ((v - off) + amp) * vscale amp res)) ((1 # 2) + code_tol).
+Definition spec_volt_tol (amp off : Q) (res : Z) (vs : list Q) (obs : outcome (list Z)) : bool :=
+  if existsb (fun v => negb (Qle_bool (off - amp) v && Qle_bool v (off + amp))) vs then
+    match obs with OErr => true | _ => false end
+  else match obs with
+       | OErr => false
+       | ORet cs => (length cs =? length vs)%nat
+                    && forallb (fun p : Q * Z => code_tol_ok amp off res (fst p) (snd p)) (combine vs cs)
+                    && monotone_pairs (combine vs cs)
+       end.
+
 (* ------------------------------------------------------------------------------------------------------------ *)
 (* is_monotonic *)
 Fixpoint sortedb (xs : list Q) : bool :=
